@@ -364,6 +364,22 @@ impl World {
         push_violation(&mut g, props, kind, culprit, edge, event, detail);
     }
 
+    /// Drop everything the log holds. The crate's closures form reference cycles (a source holds
+    /// its sink, the sink holds the source's talkback; concat's `next` holds itself), so a world
+    /// may never be freed; after a case has been digested its contents are released explicitly.
+    pub fn teardown(&self) {
+        let mut g = self.lock();
+        g.events = Vec::new();
+        g.edges = Vec::new();
+        g.violations = Vec::new();
+        g.harness_faults = Vec::new();
+        g.stack = Vec::new();
+        g.errs = Vec::new();
+        g.err_labels = Vec::new();
+        g.notes = Vec::new();
+        g.step_owners = Vec::new();
+    }
+
     pub fn harness_fault(&self, msg: String) {
         self.lock().harness_faults.push(msg);
     }
